@@ -38,7 +38,9 @@ def gen_content(rng, kind, valid=True):
     if kind == 'preamble':
         content = None if rng.random() < 0.3 else gen.gen_text(rng, enc or 'latin1')
         if rng.random() < 0.4:
-            opts['indent'] = rng.choice([0, 1, 4, 7])
+            # -2 / True / False pass the typed attribute (`isinstance(v, int)`); the writer must
+            # refuse them or write something that parses back (D27)
+            opts['indent'] = rng.choice([0, 1, 4, 7, 0, 1, 4, 7, 0, 1, 4, 7, -2, True, False])
         if rng.random() < 0.3:
             opts['line_endings'] = rng.choice(['unix', 'dos'])
         if rng.random() < 0.3:
